@@ -75,7 +75,9 @@ def rand_text(r, kind=None):
 
 
 def rand_comment(r):
-    s = "".join(r.choice("abc <&>'é ") for _ in range(r.randrange(0, 8)))
+    # ASCII only: a character the output encoding cannot represent is written as a character reference inside
+    # a comment (C04 K4), which a re-parse does not undo
+    s = "".join(r.choice("abc <&>' ") for _ in range(r.randrange(0, 8)))
     return s.replace("--", "-").rstrip("-")
 
 
@@ -784,13 +786,13 @@ def evaluate(ctx, r, impl, model, xalan, scale, state):
         ALPHA_CUR[0] = ALPHA_BMP if cls in ("docorder", "keys", "text", "union", "longtext") else ALPHA
         unsorted = r.random() < 0.06
         top = [("p", "xml-stylesheet", 'type="text/xsl" href="main.xsl"')] + gen_doc(r, sorted_attrs=not unsorted, size=r.choice([3, 8, 20, 40, 40]))
-        ALPHA_CUR[0] = ALPHA
         if unsorted and attrs_unsorted(top):
             srcflags.add("attrorder")
         if cls == "longtext" or r.random() < 0.15:
             # make sure there is long text crossing the parser / accumulation buffer sizes
             root = [t for t in top if t[0] == "e"][0]
             root[3].insert(0, ("e", "b", [], [("t", rand_text(r, "long"))]))
+        ALPHA_CUR[0] = ALPHA
         variants = r.random() < 0.45
         doctype = r.random() < 0.08
         src = serialise(r, top, variants=variants, doctype=doctype, flags=srcflags)
